@@ -522,6 +522,67 @@ Definition parse_config (cvs : list block) (biases_by_type : list (list block)) 
   if l_err st1 then st1 else parse_biases biases_by_type st1.
 
 (* ------------------------------------------------------------------------------------------------ *)
+(* Vector-valued keywords: colvarparse::_get_keyval_vector_ (after the repairs of the C09 slice)        *)
+(* ------------------------------------------------------------------------------------------------ *)
+
+(* destination empty: every token is read in turn; the first unreadable one raises an error and stops the loop *)
+Fixpoint read_all (ts : list tok) : list Q * bool :=
+  match ts with
+  | [] => ([], false)
+  | t :: r => match parse_real (Some t) with
+              | QVal q => let '(l, e) := read_all r in (q :: l, e)
+              | _ => ([], true)
+              end
+  end.
+
+(* destination of size n: element i is replaced by token i; a missing or unreadable token raises an error (and the
+   stream stays failed: the remaining elements keep their content); text left after the n-th value is an error *)
+Fixpoint read_into (cur : list Q) (ts : list tok) (failed : bool) : list Q * bool :=
+  match cur with
+  | [] => ([], failed || (negb failed && negb (match ts with [] => true | _ => false end)))
+  | c :: cr =>
+      if failed then let '(l, e) := read_into cr ts true in (c :: l, true)
+      else match ts with
+           | [] => let '(l, e) := read_into cr [] true in (c :: l, true)
+           | t :: tr => match parse_real (Some t) with
+                        | QVal q => let '(l, e) := read_into cr tr false in (q :: l, e)
+                        | _ => let '(l, e) := read_into cr tr true in (c :: l, true)
+                        end
+           end
+  end.
+
+(* get_keyval(conf, key, values, def): keyword absent -> values unchanged (callers pass def = values); keyword without
+   text -> error; otherwise by the size of the destination *)
+Definition getV (toks : option (list tok)) (cur : list Q) : list Q * bool :=
+  match toks with
+  | None => (cur, false)
+  | Some [] => (cur, true)
+  | Some ts => match cur with [] => read_all ts | _ => read_into cur ts false end
+  end.
+
+(* a per-variable list keyword of an object on n variables: the caller's check `values.size() != num_variables()`
+   (error + return) and an optional element check (e.g. maxForce >= 0) *)
+Definition vector_keyword (n : nat) (presized : bool) (elem_ok : Q -> bool) (toks : option (list tok)) : list Q * bool :=
+  let '(v, e) := getV toks (if presized then repeat (0 # 1) n else []) in
+  (v, e || negb (Nat.eqb (List.length v) n) || negb (forallb elem_ok v)).
+
+Definition tok_value (t : tok) : option Q := match parse_real (Some t) with QVal q => Some q | _ => None end.
+
+(* How a block comes to "fail".  Most validation errors are raised through a bare cvm::error() whose return value is
+   dropped (the init function carries on and may return COLVARS_OK): they only set the module's error state.
+   colvar::init() ends with parse_analysis(), which returns (cvm::get_error() ? COLVARS_ERROR : COLVARS_OK), and
+   check_new_bias() tests cvm::get_error() itself: the error state is CONSULTED at the end of the initialisation, which
+   is what makes parse_colvars / parse_biases_type roll such an object back.  [consult = false] is the variant in
+   which parse_analysis returns only its own error code (seeded change C10_1). *)
+Record iblock := mkIBlock { ib_name : string; ib_type : string;
+                            ib_returns_error : bool;     (* init() returns an error code *)
+                            ib_raises_bare : bool }.     (* init() calls cvm::error() and drops its return value *)
+
+Definition init_fails (consult : bool) (b : iblock) : bool := ib_returns_error b || (consult && ib_raises_bare b).
+Definition to_block (consult : bool) (b : iblock) : block := mkBlock (ib_name b) (ib_type b) (init_fails consult b).
+Definition raises (b : iblock) : bool := ib_returns_error b || ib_raises_bare b.
+
+(* ------------------------------------------------------------------------------------------------ *)
 (* validate: one verdict for a configuration fragment of each modelled kind                          *)
 (* ------------------------------------------------------------------------------------------------ *)
 
@@ -574,6 +635,9 @@ Definition guard_exempt : list (string * string * string) := [
   ("colvarcomp_neuralnetwork.cpp", "m_output_index", "same member as output_component");
   ("colvarcomp_torchann.cpp", "output_component", "same member name as neuralNetwork's");
   ("colvarcomp_protein.cpp", "vectorNumber", "loop ends at the first failed extraction (repaired); swept by the check, no model");
+  ("colvaratoms.cpp", "atomNumbersRange", "read with key_lookup: first <= last and both ends checked before reserve and loop (repaired); structural cases, no model");
+  ("colvaratoms.cpp", "atomNameResidueRange", "read with key_lookup: first <= last checked (repaired); needs a topology-aware engine, not configurable in the simulator");
+  ("colvarcomp_protein.cpp", "residueRange", "read with key_lookup: first <= last, reserve inside try/catch, loop ends at last (repaired); structural cases, no model");
   ("colvargrid_def.h", "sizes", "state-file keyword: property C11");
   ("colvargrid_def.h", "widths", "state-file keyword: property C11") ].
 
